@@ -11,6 +11,12 @@
  *   level 0  : inputs[0] is the closure computed by get_overlapping_inputs(current, 0, range(picked file))
  *   level > 0: inputs[0] is exactly the picked file
  * for the size-triggered and the seek-triggered path alike.
+ *
+ * Units: ver.pick (level of 1..3 files, fixed symbolic comparison result per file), ver.pick.any (level of any
+ * length: scan closed by the loop contract in loops/vpick.json, oracle comparator), ver.range (compact_range,
+ * 0..3 overlapping files with symbolic sizes).
+ * Speed notes: the version set / version objects are statics (constant addresses: the call through icmp.compare
+ * resolves to one function) and object_bits is 8 (dfcc's per-object maps have 2^object_bits entries).
  */
 #include "verif.h"
 int nondet_int(void);
